@@ -2,11 +2,11 @@
   Model driver for C15 (line protocol, see harness/c15_main.c). Imports Model only.
 
     code <fid> <enc> <now_pos> <prev_mask> <prev_pos> <hex>          -> "<processed> <prev_mask> <prev_pos> <hex>"
-    codeseq <fid> <enc> <now_pos> <hex> <len>...                     -> "<p:mask:pos>,... <hex>"
+    codeseq <fid> <enc> <now_pos> <hex> <len,len,...|->              -> "<p:mask:pos>,... <hex>"
     oneshot <fid> <enc> <start_offset> <hex>                         -> "<processed> <hex>" | "none"
-    stream <fid> <enc> <next> <start_offset> <hex> <in:out:act>...   -> "init=<ret> calls=<ret:consumed:produced>,... out=<hex>"
-    delta <enc> <dist> <hex> <len>...                                -> "<hex>"   (the static loops, chunk by chunk)
-    dstream <enc> <next> <dist> <hex> <in:out:act>...                -> like stream
+    stream <fid> <enc> <next> <start_offset> <hex> <in:out:act,...>  -> "init=<ret> calls=<ret:consumed:produced>,... out=<hex>"
+    delta <enc> <dist> <hex> <len,len,...|->                         -> "<hex>"   (the static loops, chunk by chunk)
+    dstream <enc> <next> <dist> <hex> <in:out:act,...>               -> like stream
     deltax <enc> <dist> <hex>                                        -> "<hex>"   (large inputs, processed in 4 KiB pieces)
   fid: x86 powerpc ia64 arm armthumb sparc arm64 riscv;  enc: 1 = encoder, 0 = decoder;  next: 0 = NULL, 1 = pass-through;
   act: 0 RUN, 1 SYNC_FLUSH, 2 FULL_FLUSH, 3 FINISH.
@@ -100,6 +100,10 @@ def runStream {σ : Type} (code : σ → List UInt8 → Nat → Action → σ ×
       if r.ret != 0 || (r.consumed == 0 && r.out.length == 0) then stopped := true
   return s!"calls={",".intercalate calls.toList} out={strOfAscii out}"
 
+/-- "-" or a comma-separated list -/
+def listOf {α : Type} (f : String → Option α) (s : String) : Option (List α) :=
+  if s == "-" then some [] else (s.splitOn ",").mapM f
+
 def step (_ : Unit) (ws : List String) : Unit × String :=
   match ws with
   | ["code", fid, enc, np, pm, pp, hx] =>
@@ -108,8 +112,8 @@ def step (_ : Unit) (ws : List String) : Unit × String :=
       let (o, n, st) := filterCode f e ⟨BitVec.ofNat 32 pm, BitVec.ofNat 32 pp⟩ (BitVec.ofNat 32 np) bs
       ((), s!"{n} {st.prevMask.toNat} {st.prevPos.toNat} {toHex o}")
     | _, _, _, _, _, _ => ((), "bad-op")
-  | "codeseq" :: fid :: enc :: np :: hx :: lens =>
-    match fidOf fid, boolOf enc, np.toNat?, parseHex hx, lens.mapM String.toNat? with
+  | ["codeseq", fid, enc, np, hx, lens] =>
+    match fidOf fid, boolOf enc, np.toNat?, parseHex hx, listOf String.toNat? lens with
     | some f, some e, some np, some bs, some lens => Id.run do
       let mut st := X86State.init
       let mut pos := BitVec.ofNat 32 np
@@ -123,7 +127,7 @@ def step (_ : Unit) (ws : List String) : Unit × String :=
         done := pushHex done (o.take n)
         rest := o.drop n ++ rest.drop len
         calls := calls.push s!"{n}:{st.prevMask.toNat}:{st.prevPos.toNat}"
-      return ((), s!"{",".intercalate calls.toList} {strOfAscii (pushHex done rest)}")
+      return ((), s!"{if calls.isEmpty then "-" else ",".intercalate calls.toList} {strOfAscii (pushHex done rest)}")
     | _, _, _, _, _ => ((), "bad-op")
   | ["oneshot", fid, enc, so, hx] =>
     match fidOf fid, boolOf enc, so.toNat?, parseHex hx with
@@ -132,15 +136,15 @@ def step (_ : Unit) (ws : List String) : Unit × String :=
       | some (o, n) => ((), s!"{n} {toHex o}")
       | none => ((), "none")
     | _, _, _, _ => ((), "bad-op")
-  | "stream" :: fid :: enc :: nx :: so :: hx :: sls =>
-    match fidOf fid, boolOf enc, nextOf nx, so.toNat?, parseHex hx, sls.mapM sliceOf with
+  | ["stream", fid, enc, nx, so, hx, sls] =>
+    match fidOf fid, boolOf enc, nextOf nx, so.toNat?, parseHex hx, listOf sliceOf sls with
     | some f, some e, some nx, some so, some bs, some sls =>
       match Coder.init f e nx (BitVec.ofNat 32 so) with
       | none => ((), s!"init={LZMA_OPTIONS_ERROR}")
       | some c => ((), "init=0 " ++ runStream simpleCode c bs sls)
     | _, _, _, _, _, _ => ((), "bad-op")
-  | "delta" :: enc :: dist :: hx :: lens =>
-    match boolOf enc, dist.toNat?, parseHex hx, lens.mapM String.toNat? with
+  | ["delta", enc, dist, hx, lens] =>
+    match boolOf enc, dist.toNat?, parseHex hx, listOf String.toNat? lens with
     | some e, some d, some bs, some lens => Id.run do
       let mut s := Delta.State.init d
       let mut rest := bs
@@ -152,8 +156,8 @@ def step (_ : Unit) (ws : List String) : Unit × String :=
         out := pushHex out o
       return ((), strOfAscii out)
     | _, _, _, _ => ((), "bad-op")
-  | "dstream" :: enc :: nx :: dist :: hx :: sls =>
-    match boolOf enc, nextOf nx, dist.toNat?, parseHex hx, sls.mapM sliceOf with
+  | ["dstream", enc, nx, dist, hx, sls] =>
+    match boolOf enc, nextOf nx, dist.toNat?, parseHex hx, listOf sliceOf sls with
     | some e, some nx, some d, some bs, some sls =>
       if !Delta.distValid d then ((), s!"init={LZMA_OPTIONS_ERROR}")
       else ((), "init=0 " ++ runStream (deltaCode e nx) (Delta.State.init d) bs sls)
